@@ -442,11 +442,7 @@ class Module(HasAccessibles):
     def _add_accessible(self, name, accessible, cfg=None):
         if self.startModuleDone:
             raise ProgrammingError('Accessibles can only be added before startModule()!')
-        if not self.export:  # do not export parameters of a module not exported
-            accessible.export = False
         self.accessibles[name] = accessible
-        if accessible.export:
-            self.accessiblename2attr[accessible.export] = name
         if isinstance(accessible, Parameter):
             self.parameters[name] = accessible
         if isinstance(accessible, Command):
@@ -462,6 +458,15 @@ class Module(HasAccessibles):
                 self.errors.append(f"'{name}' has no property '{propname}'")
             except BadValueError as e:
                 self.errors.append(f'{name}.{propname}: {str(e)}')
+        # the export name is only known after the configuration is applied
+        if not self.export:  # do not export parameters of a module not exported
+            accessible.export = False
+        accessible.fixExport()
+        if accessible.export:
+            if accessible.export in self.accessiblename2attr:
+                self.errors.append(f'{name}: export name {accessible.export!r} is already used'
+                                   f' by {self.accessiblename2attr[accessible.export]!r}')
+            self.accessiblename2attr[accessible.export] = name
         if isinstance(accessible, Parameter):
             self._handle_writes(name, accessible)
 
